@@ -96,6 +96,10 @@ def rd_check(s, m):
     if not rdk.same(rd, rb):
         if Chem.MolToSmiles(rd, isomericSmiles=False) != Chem.MolToSmiles(rb, isomericSmiles=False):
             return 'RDKit reads a different constitution: %s vs %s' % (Chem.MolToSmiles(rd), out)
+        from ..oracle import knownclass
+        if knownclass.ct_closure(out):
+            # the comparison goes through the library's own canonical WRITER, which has a recorded defect on this shape (C02/C12 finding)
+            return 'skip'
         return 'RDKit reads a different configuration: %s vs %s' % (Chem.MolToSmiles(rd), out)
     if rd.GetNumAtoms() == len(c):
         for ra, (_, a) in zip(rd.GetAtoms(), c.atoms()):
